@@ -41,6 +41,12 @@ def _consumer(eng, case, front):
         dA = eng.int('dA', 0, 20000)
         eng.assume(dA < life)
     data = bytes(enc.make_data('/a', enc.MetaInfo(), b'payload'))
+    iname = '/a'
+    if case.get('full_name'):
+        # the Interest names the packet by its full name (implicit digest): the caller's validator decides all the same
+        import hashlib
+        iname = enc.Name.from_str('/a') + [enc.Component.from_bytes(hashlib.sha256(data).digest(),
+                                                                    enc.Component.TYPE_IMPLICIT_SHA256)]
     VR = list(types.ValidResult)
     log = []
     out = {}
@@ -64,12 +70,12 @@ def _consumer(eng, case, front):
         try:
             if front == 'v2':
                 # express() sends at once and returns the coroutine that fetches the result: it may be awaited later
-                coro = app.express('/a', validator, lifetime=life, nonce=7)
+                coro = app.express(iname, validator, lifetime=life, nonce=7)
                 if dA is not None:
                     await vloop.sleep_until(asyncio.get_running_loop(), asyncio.get_running_loop().at_ms(dA))
                 n, content, ctx = await coro
             else:
-                n, meta, content = await app.express_interest('/a', validator=v1_validator, lifetime=life, nonce=7)
+                n, meta, content = await app.express_interest(iname, validator=v1_validator, lifetime=life, nonce=7)
             out['r'] = ('data', bytes(content), enc.Name.to_str(n))
         except types.InterestTimeout:
             out['r'] = ('timeout',)
@@ -467,7 +473,8 @@ HARNESSES = {'prod_swap': h_prod_swap, 'cons2': h_cons2, 'cons_v2': h_cons_v2, '
 
 
 def cases(tier, seed):
-    cs = [('cons_v2', {}, {'weight': 20}), ('cons_v1', {}, {'weight': 20}), ('cons_v2', {'defer': True}, {'weight': 40})]
+    cs = [('cons_v2', {}, {'weight': 20}), ('cons_v1', {}, {'weight': 20}), ('cons_v2', {'defer': True}, {'weight': 40}),
+          ('cons_v2', {'full_name': True}, {'weight': 20}), ('cons_v1', {'full_name': True}, {'weight': 20})]
     quick = tier == 'quick'
     for front in ('v2', 'v1'):
         for n in (2, 3):
